@@ -17,7 +17,9 @@ RULE = ('Hypothesis documents (profiles "full" with 4 encodings and "agnostic" w
         'equal the composition of the three single-option transformations P (C06), F (C05), T (C04/C10) of kv/xform.py '
         'applied to the aligned default extended export, in all six orders (which must also agree with each other); '
         'each single option alone must equal its own transformation; explicit-default calls must equal the omitted call '
-        'byte for byte; one Exporter object reused for all option sets of a document must give the same texts as dumps.  An evaluation is one (document, option set); non-trivial when at least two of the three options '
+        'byte for byte; one Exporter object reused for all option sets of a document, an ExportOptions object used for '
+        'other documents before, and kernpy.dump to a file must give the same texts as dumps; barline rows may be '
+        'partially invisible ("=1-" in some spines only).  An evaluation is one (document, option set); non-trivial when at least two of the three options '
         'are non-default and each of them changes the output on its own.')
 ASSUMPTIONS = ['kv/xform.py (P, F, T) as validated by C04-C06 and C10', 'placeholders "." and "*" are interchangeable']
 
@@ -42,7 +44,7 @@ def option_sets(draw, ntypes, types, encs):
 
 @st.composite
 def cases(draw, prof):
-    doc = draw(D.documents(D.profile(prof, kern_weight=2 if prof == 'sep' else 3)))
+    doc = draw(D.documents(D.profile(prof, kern_weight=2 if prof == 'sep' else 3, hidden_bars=True)))
     encs = list(K.ENCODINGS) if prof == 'agnostic' else ['kern', 'ekern', 'bkern', 'bekern']
     opts = [draw(option_sets(len(doc['types']), doc['types'], encs)) for _ in range(8)]
     return {'doc': doc, 'opts': opts, 'prof': prof}
@@ -118,7 +120,7 @@ def check(case):
         raise Bad('reused-options', f'a default ExportOptions object used for another document before gives a different export than dumps(doc)\n--- dumps\n{default_text}--- reused options\n{via_opts}')
     if before != after:
         raise Bad('options-mutated', f'export_string rewrote the caller\'s ExportOptions: {before} -> {after}')
-    for o in case['opts']:
+    for oi, o in enumerate(case['opts']):
         enc = o['enc'] or 'kern'
         sel = cats.selected(o['inc'], o['exc'])
         ids = None if o['ids'] is None else set(o['ids'])
@@ -149,6 +151,16 @@ def check(case):
         evals += 1
         if got_shared != got:
             raise Bad('shared-exporter', f'a reused Exporter object gives a different export for ({tag}) than kernpy.dumps\n--- dumps\n{got}--- reused Exporter\n{got_shared}', opts=o)
+        if oi % 3 == 0:
+            got_file = K.via_dump_file(kdoc, **kw)
+            evals += 1
+            if got_file != got:
+                raise Bad('dump-file', f'kernpy.dump({tag}) writes a different text than kernpy.dumps returns\n--- dumps\n{got}--- file\n{got_file}', opts=o)
+        if oi % 3 == 1:
+            got_ro = K.via_reused_options(kdoc, **kw)
+            evals += 1
+            if got_ro != got:
+                raise Bad('reused-options', f'an ExportOptions object ({tag}) used for other documents before gives a different export than dumps\n--- dumps\n{got}--- reused options\n{got_ro}', opts=o)
         if o['explicit']:
             kw2 = kwargs_for(o, kdoc, explicit=False)
             got2 = K.dumps(kdoc, **kw2)
